@@ -7,7 +7,7 @@ import ast
 from ..index import AnalysisError
 from ..cfg import CFG, walk_no_nested, iter_stmts
 from ..fieldflow import FuncFlow, names_in
-from .common import visitor_transformer, check_field_flow, construct_of, cls_construct, position_visited
+from .common import visitor_transformer, check_field_flow, construct_of, cls_construct, position_visited, check_changed_flag
 from . import c04, c05
 
 MOD_MAP = "jaqalpaq.core.algorithm.fill_in_map"
@@ -166,6 +166,7 @@ def run(ctx, rep):
         (QUBIT, "alias_index", "required", "the alias chain is what is resolved"),
         (QUBIT, "name", "exempt", "replaced by the fundamental qubit's name"),
     ])
+    check_changed_flag(ctx, rep, "C10.4", tr)
     for cls, member in ((GATE, "parameters"), (MACRO, "body"), (CIRCUIT, "body"), (CIRCUIT, "macros")):
         kname = ix.classes[cls].name
         cons = f"{cls_construct(ix, filler)}:{kname}.{member}:visited"
